@@ -9,11 +9,12 @@ func parseTxt(txt []string) map[string]string {
 	result := make(map[string]string)
 
 	for _, item := range txt {
-		s := strings.Split(item, "=")
-		if len(s) != 2 {
+		// only the first "=" separates key and value, the value may contain more
+		key, value, found := strings.Cut(item, "=")
+		if !found {
 			continue
 		}
-		result[s[0]] = s[1]
+		result[key] = value
 	}
 
 	return result
